@@ -31,6 +31,8 @@ var c12plan = msgsPlan{
 	InflightPts: []string{"open-v1"},
 	InflightCats: map[string]bool{"proposal": true, "proposal-c12": true, "update": true, "vfund": true, "vsettle": true,
 		"sync": true, "response": true},
+	ThoroughPoints: []string{"hub-fund", "hub-fund2", "hub-settle", "hub-settle2"},
+	ThoroughCats:   map[string]bool{"hubfund": true, "hubsettle": true},
 }
 
 func c12check(ssc schedrun.Scenario, s *vsched.Sched, o any) []schedrun.Verdict {
@@ -38,6 +40,9 @@ func c12check(ssc schedrun.Scenario, s *vsched.Sched, o any) []schedrun.Verdict 
 	out, done := msgsCommonVerdicts("C12", ssc, s, obs)
 	if done {
 		return out
+	}
+	if obs.injected() == 0 {
+		return out // nothing could be expressed: whatever happened is not the doing of a crafted message
 	}
 	return append(out, probeVerdicts("C12", obs)...)
 }
@@ -90,11 +95,13 @@ var c07mode = msgsMode{Prop: "C07"}
 var c07plan = msgsPlan{
 	Points: []string{"open-v0", "open-v1", "paid-v1", "sub-v0", "sub-v1", "sub2-v1", "final-v1",
 		"await-subfund", "await-subfund2", "await-subsettle", "await-subsettle2"},
-	Cats:         map[string]bool{"update": true, "fund": true, "settle": true, "vfund": true, "vsettle": true},
-	PairPoints:   []string{"open-v1", "sub-v1"},
-	PairSeq:      true,
-	InflightPts:  []string{"open-v1"},
-	InflightCats: map[string]bool{"update": true},
+	Cats:           map[string]bool{"update": true, "fund": true, "settle": true, "vfund": true, "vsettle": true},
+	PairPoints:     []string{"open-v1", "sub-v1"},
+	PairSeq:        true,
+	InflightPts:    []string{"open-v1"},
+	InflightCats:   map[string]bool{"update": true},
+	ThoroughPoints: []string{"hub-fund", "hub-fund2", "hub-settle", "hub-settle2"},
+	ThoroughCats:   map[string]bool{"hubfund": true, "hubsettle": true},
 }
 
 func c07check(ssc schedrun.Scenario, s *vsched.Sched, o any) []schedrun.Verdict {
